@@ -251,10 +251,10 @@ func cmdCheck(args []string) int {
 	}
 	obls = append(obls, lemObls...)
 
+	known, _ := loadKnown(filepath.Join(VerifDir, "known_findings.txt"))
 	genS := time.Since(t0).Seconds() - loadS
 	results := solveAll(obls, timeoutS, tier == "thorough", seed)
 
-	known, _ := loadKnown(filepath.Join(VerifDir, "known_findings.txt"))
 	expected := loadExpected(filepath.Join(VerifDir, "expected_obligations.json"))
 
 	perSolver := map[string]*struct {
@@ -355,6 +355,20 @@ func cmdCheck(args []string) int {
 		}
 		br := runBounded(ent, tier)
 		boundedResults = append(boundedResults, br)
+		if br.Status == "violated" {
+			// a bounded check listed as a known finding: it must still fail on its recorded input
+			isKnown := false
+			for i := range known {
+				if known[i].Kind == "known" && known[i].Property == prop && known[i].Obligation == "bounded."+ent.ID {
+					isKnown = true
+					knownHit = append(knownHit, known[i].Raw)
+					fmt.Printf("KNOWN-FINDING: property=%s %s [%s]\n", prop, known[i].What, truncate(br.Detail, 300))
+				}
+			}
+			if isKnown {
+				continue
+			}
+		}
 		if br.Status != "ok" {
 			body, _ := json.MarshalIndent(map[string]interface{}{"obligation": "bounded." + ent.ID, "kind": "bounded", "what": ent.What, "bound": br.Bound,
 				"status": br.Status, "failing_input": br.Detail, "reproduced_on_real_code": br.Status == "violated",
